@@ -1,4 +1,4 @@
-"""C01 -- rename preserves the program (structural clauses R01.1-R01.11)."""
+"""C01 -- rename preserves the program (structural clauses R01.1-R01.13)."""
 from __future__ import annotations
 
 import ast
@@ -20,6 +20,7 @@ EXPLANATION = (
     "watermark and keeps the tail.  R01.6: a module rename appends '.py' exactly for files.  R01.7: name tables merged from several sources give the winner the language prescribes (last star import, first base class).  R01.8: an absolute module name is searched on the source folders and the python path before the importer's own folder.  R01.9 (=R15.7): target-name collectors never bind the object of an attribute/subscript target.  Alpha-equivalence of the rewritten program is a runtime fact and is not decided."
     ' R01.11: `__init__` is answered as the function a call runs only when the called object is a class (an instance runs `__call__`).'
 )
+EXPLANATION += ' R01.13: a `col_offset`/`end_col_offset` of an AST node (UTF-8 bytes) reaches a character offset only through codeanalyze.column_to_offset; it is otherwise only compared, or is the start column of a node tested to be a statement.'
 ASSUMPTIONS = ["scope classes are the subclasses of rope.base.pyscopes.Scope found in the working tree"]
 
 SCOPE = "rope.base.pyscopes.Scope"
@@ -107,6 +108,13 @@ def check(ctx, res) -> None:
     from .common import call_target_rule
 
     call_target_rule(ctx, res, "R01.11")
+    from .c15 import comprehension_sees_parent_rule
+
+    comprehension_sees_parent_rule(ctx, res, "R01.12")
+    from .common import byte_column_rule, column_to_offset_anchor
+
+    column_to_offset_anchor(ctx, res, "R01.13")
+    byte_column_rule(ctx, res, "R01.13", ("rope.refactor.occurrences",))
 
 
 def call_keyword_rule(ctx, res, rule: str) -> None:
